@@ -233,6 +233,27 @@ CLAIMS["C07"] = {
     "design": "DESIGN.md §5 C07",
 }
 
+GENERAL_ASSUMPTIONS = [
+    "Verifiers trusted: Verus 0.2026.09.13 + bundled Z3; Kani 0.68 + CBMC 6.11 + its SAT back end; rustc (type checking of the generated files, macro expansion for the -Zunpretty=expanded route).",
+    "hvx extractor: token-level splice of real function bodies / whole files from the working tree; every spliced region is re-lexed and compared with the source token stream on every run (a mismatch or a lost anchor is exit 2, never a pass).",
+    "Machine arithmetic: executable integers are machine integers in both verifiers (Verus overflow obligations on; Kani overflow checks on); spec-level integers in Verus lemmas are mathematical.",
+    "Generic code is verified under type-level hypotheses stated in the contracts (T: Ord is a total order consistent with PartialOrd/Eq; == is structural equality; Clone returns an equal value; closures are callable and deterministic); they are witnessed for the integer types only.",
+    "Kani harness results are for the stated monomorphic instantiation (mostly u8 / small arrays); parametricity of the generic code in its item type is assumed.",
+    "Havoc neighbours (upstream pulls, downstream pushes/sinks, bolero driver, SimHook implementations, value-lattice atom iterators) over-approximate real neighbours: they may answer anything their protocol allows.",
+    "Harness collection doubles (TinySet, TinyMap, TinyPairs, reference HalfJoinState, channel double) stand for 'any implementation of the collection / callee contract'; conformance of std / hashbrown / roaring / fst / slotmap / the real unsync channel to those contracts is assumed, not verified.",
+    "Termination is proved only in Verus units (decreases); Kani shows absence of further iterations within the stated unwind bound (unwinding assertions on).",
+    "unsafe code: only dfir_pipes::mut_unit() (dangling ZST reference) is in scope; it is executed by CBMC with pointer checks on.",
+    "Crate configuration: lattices with features std+alloc (no serde); dfir_pipes, sinktools, variadics default features."
+]
+
+
+def write_assumptions():
+    d = {"*": GENERAL_ASSUMPTIONS}
+    for pid, c in CLAIMS.items():
+        d[pid] = ["Scope and gaps of this claim: " + c["note"]]
+    with open(os.path.join(HERE, "assumptions.json"), "w") as f:
+        json.dump(d, f, indent=1)
+
 NOT_APPLICABLE = {
     "C08": "GHT nodes own std HashMap / hashbrown HashTable at every level; variadic type recursion is outside Verus' subset and CBMC does not get through hashbrown probing (spiked): no contract on these functions can be discharged here.",
     "C16": "Tool limit, measured: the channel (Rc<RefCell<Shared>>, Weak, VecDeque, SmallVec<[Waker;1]>) extracted verbatim into a Kani harness crate (contracts/kani/vk_mpsc, kept unregistered) drives CBMC to 35-65 GB RSS in propositional reduction for a single try_send call, also with static-vtable wakers, forgotten endpoints, Waker drop/wake/clone stubbed by direct dispatch, and tokio replaced by a shim of the two error types (DESIGN.md section 11 has the bisection); Rc/RefCell/Waker code is outside Verus' subset; the no-stranded-sender part is a liveness property needing whole-history ghost state. The stale-duplicate-waker stranding trace found while reading is documented in DESIGN.md section 6.2 with its native reproduction; no registered check reports it.",
@@ -285,6 +306,7 @@ def main():
             "technique": c["technique"],
         })
     claimed = {p for p in registry.PROPS if p in CLAIMS}
+    write_assumptions()
     na = [{"property_id": k, "reason": v} for k, v in sorted(NOT_APPLICABLE.items()) if k not in claimed]
     all_ids = [json.loads(l)["id"] for l in open(os.path.join(VERIF, "properties.jsonl"))]
     pending = [i for i in all_ids if i not in claimed and i not in NOT_APPLICABLE]
